@@ -201,7 +201,7 @@ func c08R1R4(p *Prog, r *Report) {
 	okReset := false
 	if resetCall != nil {
 		for _, c := range controllingIfs(resetCall.Block()) {
-			if bo, ok := c.If.Cond.(*ssa.BinOp); ok && bo.Op == token.LSS && c.Branch == 0 && emtField(stripConv(bo.Y)) == "npre" {
+			if _, ly, side, ok := strictLess(c.If.Cond); ok && side == c.Branch && emtField(stripConv(ly)) == "npre" {
 				okReset = true
 			}
 		}
